@@ -729,7 +729,8 @@ def run_program(ctx, i, src):
     if rc == 124:
         return dict(skip="node run timed out")
     if rc != 0:
-        return dict(error="node run failed: " + (err or out)[-600:], syntax="SyntaxError" in (err or out))
+        m = re.search(r"\b(SyntaxError|ReferenceError|TypeError|RangeError)\b[^\n]*", err or out)
+        return dict(error="node run failed: " + (m.group(0) + " ... " if m else "") + (err or out)[-500:], syntax=m.group(1) if m else None)
     js_lines = [l for l in (out + err).split("\n") if re.match(r"[A-Z0-9]{3} ", l)]
     rc, out, err = C.sh2(["go", "run", "."], cwd=d, env=C.goenv(), timeout=600)
     if rc == 124:
@@ -755,7 +756,8 @@ def programs(ctx, model):
             if res.get("native"):
                 raise C.BuildError("generated C14 program rejected by native Go: " + res["error"])
             if res.get("syntax"):
-                ctx.violation("program-output-is-not-valid-javascript", "the compiled program is rejected by node with a SyntaxError (native Go runs it): " + res["error"][-200:],
+                ctx.violation("program-output-is-not-valid-javascript" if res["syntax"] == "SyntaxError" else "program-raises-javascript-error",
+                              "the compiled program (every Go panic in it is recovered; native Go runs it to the end) fails in node: " + res["error"][:200],
                               dict(kind="program", source=src, log=res["error"]))
             else:
                 ctx.violation("program-build-or-run-failed", res["error"][:300], dict(kind="program", source=src, log=res["error"]), concrete=False)
